@@ -461,6 +461,14 @@ def prove(pid, extra_targets=(), need_driver=True):
             ps.ok = False
             ps.broken += ["forbidden construct: " + b for b in bad]
         ps.theorems = property_theorems(pid)
+        if ok and os.environ.get("PV_TIER") == "thorough":
+            # independent re-check of the compiled module (and everything it imports from this project) by leanchecker
+            rc, outc = sh(["lake", "env", "leanchecker", "PV.Properties." + pid], cwd=LEAN, timeout=1800)
+            ps.output += outc
+            ps.leanchecker = "ok" if rc == 0 else "FAILED"
+            if rc != 0:
+                ps.ok = False
+                ps.broken.append("leanchecker rejects PV.Properties.%s: %s" % (pid, outc[-400:]))
         if ok:
             oka, ax, outa = axiom_audit(pid, ps.theorems)
             ps.axioms = ax
@@ -482,6 +490,8 @@ def proof_coverage(res, ps, checker_cmd):
         "trusted_base": TRUSTED_BASE + ["axioms actually used by this property's theorems: " + (", ".join(used) or "none")],
         "theorems": [t.split(".")[-1] for t in ps.discharged],
     })
+    if getattr(ps, "leanchecker", None):
+        res.coverage["leanchecker"] = ps.leanchecker
 
 
 def seed_from_env():
